@@ -1311,7 +1311,12 @@ std::ostream& expression_t::print(std::ostream& os, bool old) const
         break;
     }
 
-    case UNARY_MINUS: embrace(os << '-', old, get(0), precedence); break;
+    case UNARY_MINUS:
+        if (get(0).get_kind() == CONSTANT && get(0).get_type().is_integer() && get(0).get_value() < 0)
+            get(0).print(os << "-(", old) << ')';  // a negative constant (-2147483648): `--` would be read as a decrement
+        else
+            embrace(os << '-', old, get(0), precedence);
+        break;
 
     case POST_DECREMENT:
     case POST_INCREMENT: embrace(os, old, get(0), precedence) << (get_kind() == POST_DECREMENT ? "--" : "++"); break;
